@@ -237,7 +237,7 @@ func checkSplitGuards(p *load.Program, r *kit.Report, ph *ssa.Function, g *phGua
 		reach := kit.Reach(ph, []kit.Pt{kit.EdgeStart(loopEq[0].PassEdge())}, kit.Opts{})
 		bad := ""
 		for _, ret := range kit.Returns(ph) {
-			if reach.Has(ret) && errCause(kit.RetOperand(ret, 0)) != "ErrWrongChain" {
+			if reach.Has(ret) && errCauseVia(reach, ret, 0) != "ErrWrongChain" {
 				bad = "foreign split header reaches " + retLabel(ret)
 			}
 		}
@@ -298,7 +298,7 @@ func checkSplitGuards(p *load.Program, r *kit.Report, ph *ssa.Function, g *phGua
 		reach := kit.Reach(ph, []kit.Pt{kit.EdgeStart(reqEq[0].FailEdge())}, kit.Opts{})
 		bad := ""
 		for _, ret := range kit.Returns(ph) {
-			if reach.Has(ret) && errCause(kit.RetOperand(ret, 0)) != "ErrWrongChain" {
+			if reach.Has(ret) && errCauseVia(reach, ret, 0) != "ErrWrongChain" {
 				bad = "wrong header at the required split height reaches " + retLabel(ret)
 			}
 		}
@@ -318,7 +318,7 @@ func checkSplitGuards(p *load.Program, r *kit.Report, ph *ssa.Function, g *phGua
 		reach := kit.Reach(ph, starts, kit.Opts{})
 		bad := ""
 		for _, ret := range kit.Returns(ph) {
-			if reach.Has(ret) && kit.ReturnErrClass(ret) != kit.ErrNonNil {
+			if reach.Has(ret) && reach.ErrClass(ret) != kit.ErrNonNil {
 				bad = "unknown-parent arm reaches " + retLabel(ret)
 			}
 		}
@@ -420,7 +420,7 @@ func checkHeadersVerify(p *load.Program, r *kit.Report) {
 	reach := kit.Reach(f, starts, kit.Opts{StopAt: func(in ssa.Instruction) bool { return stopSet[in] }})
 	bad := ""
 	for _, ret := range kit.Returns(f) {
-		if reach.Has(ret) && kit.ReturnErrClass(ret) != kit.ErrNonNil {
+		if reach.Has(ret) && reach.ErrClass(ret) != kit.ErrNonNil {
 			bad = "a reply can leave the peer connected and unverified: nil return at " + posOf(p, ret) + " without accept() or Stop(): " + reach.PathTo(ret, p.Pos)
 		}
 	}
